@@ -397,6 +397,28 @@ func mutate(rng *rand.Rand, src string, other string, pool *Pool) string {
 	return out
 }
 
+// c01layoutSrc builds a program whose syntax error sits at a chosen layout position.
+func c01layoutSrc(rng *rand.Rand) (string, string) {
+	indents := []string{"", " ", "            ", "\t", "\t\t  ", strings.Repeat(" ", 200), "\u3000", "  \t  "}
+	toks := []string{"`abc\nd`", "`\n`", "`a\n\n\nb`", "`" + strings.Repeat("é", 30) + "\n`", "\"日本語\"", "'sym", "`x\r\ny`",
+		"`" + strings.Repeat("z", 300) + "\n\n`", "\"#{`p\nq`}\"", "1", "foo", "{|x|\n x}", "[1,\n 2]", "# c\n3", "`\n\n\n\n\n\n`"}
+	heads := []string{"", "a := 1\n", "s := `l1\nl2\nl3`\n", "\n\n\n", "f := {|x|\n  x\n}\n", "# only a comment\n", "\"é\".p\r\n", "t := `" + strings.Repeat("\n", 40) + "`\n"}
+	breakers := []string{"x := [1, 2\n%s%s]\nx.p", "{a: 1 %s%s}", "f(1 %s%s)", "y := %s%s %[2]s", "1 + * %s%s", "%s%s )", "(%s%s", "%s%s %[2]s %[2]s",
+		"[%s%s", "%s%s := := 1", "if %s%s", "%s%s\n)\n", "1 +\n%s%s\n*", "{|a| %s%s b c}", "%s%s.", "%s%s@", "<{|| %s%s >", "%%{1: %s%s 2}"}
+	hi, ii, ti, bi := rng.Intn(len(heads)), rng.Intn(len(indents)), rng.Intn(len(toks)), rng.Intn(len(breakers))
+	src := heads[hi] + fmt.Sprintf(breakers[bi], indents[ii], toks[ti])
+	tail := rng.Intn(4)
+	switch tail {
+	case 1:
+		src += "\n"
+	case 2:
+		src = strings.ReplaceAll(src, "\n", "\r\n")
+	case 3:
+		src += "\n\n`unterminated"
+	}
+	return src, fmt.Sprintf("h%d|i%d|t%d|b%d|e%d", hi, ii, ti, bi, tail)
+}
+
 // ---- stdin doubles
 type errReader struct {
 	data []byte
@@ -636,6 +658,27 @@ func runC01(w *fw.W) {
 			w.Note(truncateMid(src, 2000))
 			o := run(src, interp.Options{FileName: "/repo/tests/mutant.pangaea"})
 			observe(b, src, o, "mutants", fmt.Sprintf("mutant|%s|%s", outcomeClass(o), shapeHash(src)), true)
+		}
+		finish(b)
+	}
+	// (3b) syntax-error reports over source layouts: the offending token is (or follows) a token that
+	// spans lines, sits behind deep / tab / multibyte indentation, at column 0, at end of input, after CRLF
+	nl := w.Pick(8, 200)
+	for k := 0; k < nl; k++ {
+		if !w.Take() {
+			continue
+		}
+		w.Begin(fmt.Sprintf("syntax-error layout batch %d", k), map[string]any{"batch": k})
+		rng := w.Rand()
+		b := newBatch()
+		for i := 0; i < 150; i++ {
+			src, cls := c01layoutSrc(rng)
+			w.Note(src)
+			o := run(src, interp.Options{FileName: "/repo/tests/layout.pangaea"})
+			observe(b, src, o, "syntax_error_layouts", fmt.Sprintf("layout|%s|%s", outcomeClass(o), cls), true)
+			if o.ParseErr != "" {
+				b.counters["syntax_error_reports"]++
+			}
 		}
 		finish(b)
 	}
